@@ -15,7 +15,17 @@ import (
 )
 
 // level alphabets for C01 topics and filters (never a leading '$')
-var c01Lits = []string{"a", "b", "longlevel-0123456789012345678901234567890123456789", "ünï"}
+var c01Lits = []string{"a", "b", "longlevel-0123456789012345678901234567890123456789", "ünï", "$d"}
+
+// c01Lit picks a literal level; '$' is only special at the very beginning of a topic, so
+// a level that starts with it is used everywhere except as the first one.
+func c01Lit(r *spec.Rand, first bool) string {
+	l := c01Lits[r.Intn(2+r.Intn(4))%len(c01Lits)]
+	if first && l[0] == '$' {
+		l = "a"
+	}
+	return l
+}
 
 func genName(r *spec.Rand, emptyOK bool) string {
 	n := 1 + r.Intn(4)
@@ -24,7 +34,7 @@ func genName(r *spec.Rand, emptyOK bool) string {
 		if emptyOK && r.Intn(6) == 0 {
 			ls[i] = ""
 		} else {
-			ls[i] = c01Lits[r.Intn(2+r.Intn(3))%len(c01Lits)]
+			ls[i] = c01Lit(r, i == 0)
 		}
 	}
 	s := strings.Join(ls, "/")
@@ -46,7 +56,7 @@ func genFilterC01(r *spec.Rand, emptyOK bool) string {
 		case x == 3 && emptyOK:
 			ls[i] = ""
 		default:
-			ls[i] = c01Lits[r.Intn(2+r.Intn(3))%len(c01Lits)]
+			ls[i] = c01Lit(r, i == 0)
 		}
 	}
 	s := strings.Join(ls, "/")
